@@ -7,7 +7,7 @@ cells : rings or `-` (no geometry) joined by `|`
 
 `tri <cells>`        → `OK n=<#triangles> V=<sorted vertex table> T=<k:tri+tri…|k:…>` | `ERR:noear` | `ERR:short`
                        (triangle = its three vertices sorted, `x,y;x,y;x,y`; triangles of a cell sorted;
-                       cells in index order; oracles = exact tests of Core/TriangulateGeom)
+                       cells in index order; oracles = `isStrictConvex`, `isEarExact` of Core/TriangulateGeom)
 `ears <ring>`        → bit string of `isEarExact ring i`, i = 0 … n-3
 `convex <ring>`      → `1` | `0`   (`isConvexExact`)
 `fansorted <ring>`   → `1` | `0`   (hypothesis of `fan_oriented` / `fan_no_overlap`, either orientation)
@@ -66,7 +66,7 @@ def step (line : String) : String :=
     match parseCells? cs with
     | none => "BAD"
     | some cells =>
-      match triangulateDataset isConvexExact isEarExact cells with
+      match triangulateDataset isStrictConvex isEarExact cells with
       | .error .noEar => "ERR:noear"
       | .error .fuel => "ERR:fuel"
       | .error .tooShort => "ERR:short"
@@ -76,7 +76,7 @@ def step (line : String) : String :=
           | (some i, some j, some l) =>
             out.vertices[i]? == some kt.2.a && out.vertices[j]? == some kt.2.b && out.vertices[l]? == some kt.2.c
           | _ => false
-        if !decoded || out.index.length != out.tris.length then "ERR:index" else
+        if !decoded || out.index.length != out.tris.length || out.tris.length != totalTriangles cells then "ERR:index" else
         let v := joinWith ";" ((out.vertices.mergeSort ptLe).map showPt)
         let perCell := (List.range cells.length).filterMap fun k =>
           let ts := (out.tris.filter (·.1 == k)).map (·.2)
@@ -97,8 +97,7 @@ def step (line : String) : String :=
   | ["strictconvex", r] =>
     match parseRing? r with
     | none => "BAD"
-    | some p => bit (decide (p.Nodup) && decide (3 ≤ p.length) &&
-        (decide (StrictConvex 1 p) || decide (StrictConvex (-1) p)))
+    | some p => bit (isStrictConvex p)
   | ["convexcell", r] =>
     match parseRing? r with
     | none => "BAD"
